@@ -148,6 +148,12 @@ func (f *FSM) GetMapping(statsdMetric string, statsdMetricType string) (*mapping
 				if len(currentState.transitions) > 0 {
 					field := matchFields[i]
 					state, present = currentState.transitions[field]
+					if field == "*" {
+						// a component that is literally "*" must not follow the
+						// wildcard transition as if it were a literal one:
+						// it would not be captured
+						present = false
+					}
 					fieldsLeft := filedsCount - i - 1
 					// also compare length upfront to avoid unnecessary loop or backtrack
 					if !present || fieldsLeft > state.maxRemainingLength || fieldsLeft < state.minRemainingLength {
